@@ -440,12 +440,25 @@ impl Middleware<St, Act> for SMiddleware {
 pub struct SSubscriber {
     pub id: String,
     pub env: Arc<Env>,
+    /// forward every notification as action id+10 to this other store (two-store runs)
+    pub fwd: Option<Arc<Shared>>,
 }
 
 impl Subscriber<St, Act> for SSubscriber {
     fn on_notify(&self, state: &St, action: &Act) {
         self.env
             .cb("notify", &self.id, state.json(), action.id, json!([]));
+        if let Some(b) = &self.fwd {
+            if self.env.epoch != sched().epoch() {
+                return;
+            }
+            // this thread acts as a client of the other store for one call
+            let st = b.env.prefix.clone();
+            let a = action.id + 10;
+            sched().point_st(&st, Class::Gate, "xop", json!({"op": "dispatch", "a": a, "via": "impl", "s": "-"}));
+            let r = TStore::dispatch(&b.store, b.env.cfg.act(a));
+            sched().point_st(&st, Class::Gate, "op.end", json!({"op": "dispatch", "res": if r.is_ok() { "Ok" } else { "Err" }}));
+        }
     }
     fn on_unsubscribe(&self) {
         self.env.cb("unsub", &self.id, json!([]), 0, json!([]));
@@ -512,6 +525,8 @@ pub struct Shared {
     pub signals: (Mutex<std::collections::HashSet<String>>, std::sync::Condvar),
     /// subscriber objects registered in more than one store (two-store runs)
     pub shared_subs: Arc<Mutex<HashMap<String, Arc<SSubscriber>>>>,
+    /// the other stores of the run, by key (two-store runs)
+    pub peers: Mutex<HashMap<String, Arc<Shared>>>,
 }
 
 impl Shared {
@@ -523,6 +538,7 @@ impl Shared {
             iters: Mutex::new(HashMap::new()),
             signals: (Mutex::new(Default::default()), std::sync::Condvar::new()),
             shared_subs: Arc::new(Mutex::new(HashMap::new())),
+            peers: Mutex::new(HashMap::new()),
         })
     }
 }
@@ -586,14 +602,20 @@ pub fn run_op(sh: &Arc<Shared>, o: &OpDesc) -> Value {
                         Arc::new(SSubscriber {
                             id: o.s.clone(),
                             env: env.clone(),
+                            fwd: None,
                         })
                     })
                     .clone();
                 store.add_subscriber(obj)
             } else {
+                let fwd = o
+                    .via
+                    .strip_prefix("fwd:")
+                    .and_then(|k| sh.peers.lock().unwrap().get(k).cloned());
                 store.add_subscriber(Arc::new(SSubscriber {
                     id: o.s.clone(),
                     env: env.clone(),
+                    fwd,
                 }))
             };
             sh.subscriptions
@@ -615,6 +637,7 @@ pub fn run_op(sh: &Arc<Shared>, o: &OpDesc) -> Value {
                 Box::new(SSubscriber {
                     id: o.s.clone(),
                     env: env.clone(),
+                    fwd: None,
                 }),
             );
             match r {
